@@ -932,15 +932,21 @@ def implies(have, need):
                 return True
             if ho == "Lt" and no == "Ne":
                 return True
-        # integer constant bounds on one term:  lower bounds  c <= x
+        # integer constant bounds on one term:  lower bounds  c <= x.  `need` counts as a bound only if it is one (an equation
+        # x == c is both a lower and an upper bound and needs both)
         hl = lower_of(have)
-        nl = lower_of(need)
-        if hl and nl and hl[0] == nl[0] and hl[1] >= nl[1]:
-            return True
         hu = upper_of(have)
-        nu = upper_of(need)
-        if hu and nu and hu[0] == nu[0] and hu[1] <= nu[1]:
-            return True
+        if no == "Eq":
+            ne_ = lower_of(need)
+            if ne_ and hl and hu and hl[0] == ne_[0] == hu[0] and hl[1] == ne_[1] == hu[1]:
+                return True
+        else:
+            nl = lower_of(need)
+            if hl and nl and hl[0] == nl[0] and hl[1] >= nl[1]:
+                return True
+            nu = upper_of(need)
+            if hu and nu and hu[0] == nu[0] and hu[1] <= nu[1]:
+                return True
         # Ne(x, c) is implied by bounds excluding c
         if no == "Ne":
             x, c = (na, nb) if nb[0] == "int" else (nb, na)
